@@ -278,7 +278,8 @@ def l3_case(args):
 
 
 # ------------------------------------------------------------------------------------------------ L4 record placement
-PLACE_KINDS = "PSXQ"      # P reported primary (spliced, MAPQ 60); S supplementary record; X secondary two-exon record in an unannotated
+PLACE_KINDS = "PSXQU"     # U an UNMAPPED record (flag 4) that carries a chromosome and a position (legal SAM: placed unmapped reads);
+                          # P reported primary (spliced, MAPQ 60); S supplementary record; X secondary two-exon record in an unannotated
                           # region (documented filter); Q primary mono-exonic MAPQ-0 record in an unannotated region (documented filter)
 
 
@@ -309,6 +310,9 @@ def placement_world(sub_b, sub_c, n_unmapped):
         if "Q" in sub:
             reads.append(W.read_of("Q_" + chrom, chrom, [[4601, 4900]], polya=False, mapq=0))
             stats["primary"] += 1
+        if "U" in sub:
+            reads.append({"name": "U_" + chrom, "unmapped": True, "chr": chrom, "pos": 1100})
+            stats["unaligned"] += 1
     for i in range(n_unmapped):
         reads.append({"name": "unm%d" % i, "unmapped": True})
     w["reads"] = reads
@@ -359,8 +363,8 @@ def l4_case(args):
     try:
         h, rows = run.parse_counts(run.find(out, "OUT", ".gene_counts.tsv"))
         na = rows.get("__not_aligned")
-        if na is not None and abs(float(na[0][0]) - n_unm) > 1e-9:
-            errs.append(("not-aligned-line", "__not_aligned = %s, the BAM has %d unmapped records" % (na[0][0], n_unm)))
+        if na is not None and abs(float(na[0][0]) - expstats["unaligned"]) > 1e-9:
+            errs.append(("not-aligned-line", "__not_aligned = %s, the BAM has %d unmapped records" % (na[0][0], expstats["unaligned"])))
     except Exception as e:  # noqa
         errs.append(("output-unreadable", repr(e)))
     shutil.rmtree(d, ignore_errors=True)
